@@ -133,7 +133,10 @@ def _inline_one(P, f, raw, keep, depth):
                     return x['e']['e']
                 if x.get('k') == 'var' and x.get('sc') in ('param', 'local'):
                     if x.get('sc') == 'param' and x['name'] in pmap:
-                        return copy.deepcopy(pmap[x['name']])
+                        rep = copy.deepcopy(pmap[x['name']])
+                        if x.get('castto') and isinstance(rep, dict):
+                            rep['castto'] = x['castto']      # `(unsigned char)param` keeps its cast around the argument
+                        return rep
                     y = dict(x)
                     y['name'] = x['name'] + sfx
                     y['sc'] = 'local'
